@@ -419,6 +419,9 @@ Definition close_and_add_segment (st : bstate) : result bstate :=
 
 Definition insert_new_segment (st : bstate) (first wfirst : Z) : result bstate :=
   do st1 <- close_and_add_segment st;
+  (* assert_address_in_memory(self.memory_width, first_address): since the fix c350a24 a segment placed outside the
+     address space is "Not enough space", also when nothing is assembled into it *)
+  if negb (in_memory first) then LibError KNoSpace else
   Ok (mkb first wfirst first (b_fj st1) (b_wf st1) [] (b_dict st1) (b_labels st1) (b_wcount st1) (b_wr st1)).
 
 Definition insert_reserve_bits (st : bstate) (new_first : Z) : result bstate :=
